@@ -69,6 +69,8 @@ pub open spec fn into_vcell<T: Into<VCell>>(x: T) -> VCell { <T as vstd::std_spe
 pub open spec fn into_obeys<T: Into<VCell>>() -> bool { <T as vstd::std_specs::convert::IntoSpec<VCell>>::obeys_into_spec() }
 /// the two views the opaque-heap groups (builtins, cont, compile, ...) reason with, defined on the real representation
 pub open spec fn m_deref(h: Heap, c: VCell) -> VCell { match c { VCell::Ptr(p) => if p < h.len() { h.cells()[p as int] } else { VCell::Undefined }, _ => c } }
+/// what the opaque-heap groups take as an axiom (axiom_deref_immediate): a cell that is not a pointer designates itself
+pub proof fn lemma_m_deref_immediate(h: Heap, c: VCell) ensures !(c is Ptr) ==> m_deref(h, c) == c {}
 pub open spec fn m_live(h: Heap, c: VCell) -> bool { c matches VCell::Ptr(p) && p < h.len() && h.state(p as int) != 0 }
 /// the model of Heap::put those groups ASSUME (specs/builtin.py: put_model), here over the concrete views: Heap::put is verified to satisfy it
 pub open spec fn put_model_c(h0: Heap, h1: Heap, x: VCell, r: VCell) -> bool {
